@@ -17,11 +17,13 @@ def tie(rep, tier, rng, model_ok):
     q = tier == "quick"
     a = simprops.corpus_cases("C04") + [simgen.gen_net(rng) for _ in range(250 if q else 6000)]
     b = [simgen.gen_multi(rng) for _ in range(150 if q else 4000)]
+    w = [simgen.gen_wide(rng) for _ in range(6 if q else 60)]
     threads = (1, 2, 3, 4, 8, 16)
     simprops.run(rep, "C04", model_ok,
                  [("net-all-executors", a, threads, ORACLES, nontrivial),
-                  ("multi-all-executors", b, threads, (oracles.o_harness, oracles.o_time), nontrivial)],
-                 "the same bench/commands on the single-threaded executor and on 2,3,4,8,16 worker threads; every run's per-command multiset of handler invocations, results, times and sink contents must equal the model's reference run; oracle: when a call returns Ok every sent message has been processed. non-trivial = >=4 invocations")
+                  ("multi-all-executors", b, threads, (oracles.o_harness, oracles.o_time), nontrivial),
+                  ("wide-all-executors", w, (1, 2, 4, 7), ORACLES, nontrivial)],
+                 "the same bench/commands on the single-threaded executor and on 2,3,4,8,16 worker threads; every run's per-command multiset of handler invocations, results, times and sink contents must equal the model's reference run; oracle: when a call returns Ok every sent message has been processed. wide = 129..300 models with one event each due at the same time (more than one 128-task injector bucket). non-trivial = >=4 invocations")
 
 
 def replay(rep, path, model_ok):
